@@ -86,6 +86,34 @@ def overload_case(rng):
     return "\n".join(lines), line, desc + "%s <- (%s)" % (" | ".join(",".join(c) for c in vis_cands), ",".join(args))
 
 
+def default_binding_case(rng):
+    """(source, expected echo lines): fields with and without initialisers, a default constructor binding some of them, a derived class
+    passing arguments up through super(...)"""
+    names = ["w", "h", "t", "k"]
+    tys = {"w": "int", "h": "int", "t": "string", "k": "float"}
+    lit = {"int": lambda: str(rng.randrange(1, 50)), "string": lambda: '"s%d"' % rng.randrange(9), "float": lambda: "%d.5f" % rng.randrange(1, 9)}
+    show = {"int": lambda v: v, "string": lambda v: v.strip('"'), "float": lambda v: v[:-1]}
+    init = {n: (lit[tys[n]]() if rng.random() < 0.7 else None) for n in names}
+    bound = [n for n in names if rng.random() < 0.6] or ["w"]
+    rng.shuffle(bound)
+    args = {n: lit[tys[n]]() for n in bound}
+    fields = " ".join("public %s %s%s;" % (tys[n], n, (" = " + init[n]) if init[n] else "") for n in names)
+    dflt = {"int": "0", "string": "", "float": "0.0"}
+    final = {n: (args[n] if n in bound else init[n]) for n in names}
+    want = [show[tys[n]](final[n]) if final[n] is not None else dflt[tys[n]] for n in names]
+    src = ["class R { %s public constructor(%s) -> R = default; }" % (fields, ", ".join("%s %s" % (tys[n], n) for n in bound))]
+    derived = rng.random() < 0.5
+    if derived:
+        extra = lit["int"]()
+        src.append("class S extends R { public int z = %s; public constructor(%s) -> S { super(%s); return this; } }"
+                   % (extra, ", ".join("%s %s" % (tys[n], n) for n in bound), ", ".join(bound)))
+        want = want + [extra]
+    cls = "S" if derived else "R"
+    src.append("function main() -> void { %s r = new %s(%s); %s%s }" % (cls, cls, ", ".join(args[n] for n in bound),
+               " ".join("echo(r.%s);" % n for n in names), " echo(r.z);" if derived else ""))
+    return "\n".join(src), want
+
+
 def generic_case(rng):
     ts = [rng.randrange(3) for _ in range(rng.randrange(1, 8))]
     names = ["A", "B", "C"]
@@ -191,6 +219,17 @@ def run(chk):
         if not (got[:len(wb)] == wb and sorted(got[len(wb):]) == wf) and first is None:
             first = ("object lifetime: implementation prints %s, reference counting prescribes %s then (in any order) %s" % (got, wb, wf),
                      {"source": hp.source(), "model_line": "life " + hp.model_ops(), "kind": "lifetime"})
+    # `= default` constructors bind their parameters to the fields of the same name AFTER the field initialisers have run (an
+    # initialiser never overwrites a constructor argument), in a base class reached through super(...) as well
+    dbs = [default_binding_case(rng) for _ in range(600 if chk.thorough else 40)]
+    _l2, dimpl, _m2, _inc2 = evallib.run_programs([(d[0], []) for d in dbs], with_model=False)
+    for (src, want), a in zip(dbs, dimpl):
+        chk.count(("default-binding", src))
+        got = evallib.split_result(a).get("echo_lines") if a.startswith("ok ") else [a[:120]]
+        if got != want and first is None:
+            first = ("default constructor binding: implementation prints %s, 'initialisers first, then the constructor binds its arguments' gives %s"
+                     % (got, want), {"source": src, "kind": "default-binding"})
+    kinds["default-binding programs"] = len(dbs)
     kinds["lifetime programs"] = len(lps)
     chk.extra["input_distribution"] = kinds
     chk.extra["harness_incident"] = str(incident)[:300] if incident else ""
